@@ -1,6 +1,6 @@
 (* C02 -- every state sampler realises exactly the target law, independent of call history.
    Only statements; proofs live in Proofs/C02_*.v, the executable models in Model/{StepLaw,Bst,Alias,Huffman,
-   Table,Inversion,BstAdapted}.v (tied to /repo by the vm_compute correspondence of harness/props/C02.py).
+   Table,Inversion,InversionFrontier,BstAdapted,BstAdaptedNd}.v (tied to /repo by the vm_compute correspondence of harness/props/C02.py).
    The law of a sampler is expressed without measure theory: the sampler is the step function `locate`
    (left-closed intervals) or `locate_r` (right-closed) of an explicit list of consecutive labelled intervals
    laid out from 0, and the total length labelled k (`len_of k`) equals p_k.  nonneg p: entries >= 0
@@ -12,6 +12,7 @@ From RV Require Import Base.QB Gen.GenPairing Model.Pairing Model.StepLaw Model.
   Proofs.C02_StepLaw Proofs.C02_Bst Proofs.C02_Inversion Proofs.C02_Huffman Proofs.C02_BstAdapted Proofs.C02_Alias
   Proofs.C02_Table Proofs.C02_Lattice Proofs.C02_TableDraw Proofs.C02_InversionAdm Proofs.C02_Stateful Proofs.C02_Factory
   Proofs.C02_BstAdaptedNd Proofs.C02_Refuted.
+From RV Require Import Model.Domain Model.InversionFrontier Proofs.C02_InversionFrontier.
 Import ListNotations.
 Open Scope Q_scope.
 
@@ -205,6 +206,75 @@ Example C02_bstadaptednd_nonvacuous :
      = [Some [0; -2]; Some [-1; 0]; Some [-2; 2]; Some [1; 2]; Some [2; 2]]%Z.
 Proof. vm_compute. repeat split. Qed.
 
+(* ---- wave 5 ---- *)
+
+(* InversionMethod.sample_with_u INCLUDING the exhaustion path, the frontier draw inside the model
+   (Model/InversionFrontier.v: np.random.choice = the position c in the deque fr = frontier_states_indices).
+   For EVERY enumeration, _max_storage >= 1, deque fr, reachable state (any history), uniform u and choice c:
+   (1) the state returned is the admissible state of the right-closed step function, or project(fr[c]) when u is above it;
+   (2) np.random.choice is consumed iff u exceeds sigma = the sum of the probabilities of the admissible states
+       (so with sigma == 1, exact arithmetic, never for u <= 1);
+   (3) if sigma <= 1 (a float sum of rate/intensity that ends below 1), for each c the sampler is on (0, 1] the right-closed
+       step function of fsegs c = adm_segs' ++ [(1 - sigma, fr[c])], of total length 1;
+   (4) with c uniform on the positions of the deque, the index i receives (sum over c, i.e. length fr times the mean)
+       len(fr) * p_i + (1 - sigma) * #{positions of fr holding i}: the deficit goes to the frontier indices only,
+       in proportion to their multiplicity;
+   (5) if every index of the deque is admissible the returned state is admissible (in the grid) whatever u and c. *)
+Theorem C02_inversion_frontier_law : forall (S : Type) (proj : Z -> S) (outside : S -> bool) (F : Z) (prob : S -> Q) (M : Z) (fr : list Z),
+  (forall s, 0 <= prob s) -> (1 <= M)%Z -> (0 <= F)%Z ->
+  let segs := adm_segs' proj outside F prob in
+  let sigma := total segs in
+  forall st, reachable proj outside F prob M st ->
+    (forall u c, snd (inv_step_f proj outside F prob M fr st u c)
+                 = Some (match locate_r 0 segs u with Some i => proj i | None => proj (nth c fr 0%Z) end))
+    /\ (forall u, inv_uses_choice proj outside F prob M st u = true <-> sigma < u)
+    /\ (sigma <= 1 -> forall c,
+          total (fsegs proj outside F prob fr c) == 1 /\ seg_nonneg (fsegs proj outside F prob fr c)
+          /\ forall u, u <= 1 -> exists i, locate_r 0 (fsegs proj outside F prob fr c) u = Some i
+                                           /\ snd (inv_step_f proj outside F prob M fr st u c) = Some (proj i))
+    /\ (forall i, qsum (map (fun c => len_of i (fsegs proj outside F prob fr c)) (seq 0 (length fr)))
+                  == qn (length fr) * (if in_dec Z.eq_dec i (G proj outside F) then prob (proj i) else 0)
+                     + (1 - sigma) * qn (zcount i fr))
+    /\ (Forall (fun i => In i (G proj outside F)) fr -> forall u c, (c < length fr)%nat ->
+          exists i, In i (G proj outside F) /\ snd (inv_step_f proj outside F prob M fr st u c) = Some (proj i)).
+Proof. exact @inversion_frontier_law. Qed.
+
+(* the 1-d factory instance (PairingToZ1d((-L, R), omit_zero=True), Boundary(), Domain 1-d branch = Model/Domain.v dom_1d,
+   max_frontier_indices = dom_maxf): the deque is [pair R; pair (-L)], both indices are admissible (hypothesis of (5) above),
+   the frontier states are the two END POINTS of the axis: in the grid, never the origin *)
+Theorem C02_inversion_frontier_1d : forall L R : Z, (0 < L)%Z -> (0 < R)%Z ->
+  let proj := z1d_project (- L) R 1 in
+  Forall (fun i => In i (G proj (outside1d L R) (maxf1d L R))) (fr1d L R)
+  /\ map proj (fr1d L R) = [R; (- L)%Z]
+  /\ (0 <= maxf1d L R)%Z
+  /\ (forall c, (c < length (fr1d L R))%nat -> let s := frontier_state proj (fr1d L R) c in (- L <= s <= R)%Z /\ s <> 0%Z).
+Proof. exact frontier_1d. Qed.
+
+(* F-C02-13 (finding): the frontier draw returns a state of probability ZERO.  7-point axis, probabilities summing to
+   1 - 2^-52 with p(-3) = 0, u = 1 - 2^-53 in (0,1), np.random.choice picks position 1 of deque([pair 3, pair (-3)]) *)
+Theorem C02_inversion_frontier_zero_prob_refuted :
+  let proj := z1d_project (-3) 3 1 in
+  exists st, inv_init proj (outside1d 3 3) (maxf1d 3 3) fz_prob = Some st
+    /\ total (adm_segs' proj (outside1d 3 3) (maxf1d 3 3) fz_prob) == 1 - (1 # 4503599627370496)
+    /\ 0 < fz_u /\ fz_u < 1
+    /\ snd (inv_step_f proj (outside1d 3 3) (maxf1d 3 3) fz_prob 1000000 (fr1d 3 3) st fz_u 1) = Some (-3)%Z
+    /\ fz_prob (-3) == 0.
+Proof. exact inversion_frontier_zero_prob_refuted. Qed.
+
+(* non-vacuity of the two theorems above: the same instance with _max_storage = 2, a history of four draws that consumes
+   the choice twice; G has 6 admissible indices, the deque is [4; 5], index 5 (state -3) has multiplicity 1 *)
+Example C02_inversion_frontier_nonvacuous :
+  let proj := z1d_project (-3) 3 1 in
+  fr1d 3 3 = [4; 5]%Z /\ maxf1d 3 3 = 5%Z /\ map proj (fr1d 3 3) = [3; -3]%Z
+  /\ G proj (outside1d 3 3) (maxf1d 3 3) = [0; 1; 2; 3; 4; 5]%Z
+  /\ (exists st, inv_init proj (outside1d 3 3) (maxf1d 3 3) fz_prob = Some st
+       /\ fst (inv_run_f proj (outside1d 3 3) (maxf1d 3 3) fz_prob 2 (fr1d 3 3) st
+                 [(1 # 2, 0%nat); (fz_u, 0%nat); (1 # 32, 1%nat); (fz_u, 1%nat)])
+          = [Some 2; Some 3; Some 1; Some (-3)]%Z
+       /\ map (inv_uses_choice proj (outside1d 3 3) (maxf1d 3 3) fz_prob 2 st) [1 # 2; fz_u] = [false; true])
+  /\ zcount 5 (fr1d 3 3) = 1%nat /\ zcount 3 (fr1d 3 3) = 0%nat.
+Proof. exact inversion_frontier_nonvacuous. Qed.
+
 (* F-C02-6 (recorded finding, current tree): the right-closed samplers send u = 0 to the first enumerated state
    even when its probability is zero *)
 Theorem C02_inversion_zero_uniform_refuted :
@@ -260,6 +330,10 @@ Print Assumptions C02_bstadaptednd_bucket_law.
 Print Assumptions C02_bstadaptednd_law.
 Print Assumptions C02_bstadaptednd_cache_history_free.
 Print Assumptions C02_bstadaptednd_nonvacuous.
+Print Assumptions C02_inversion_frontier_law.
+Print Assumptions C02_inversion_frontier_1d.
+Print Assumptions C02_inversion_frontier_zero_prob_refuted.
+Print Assumptions C02_inversion_frontier_nonvacuous.
 Print Assumptions C02_inversion_zero_uniform_refuted.
 Print Assumptions C02_bstadapted1d_zero_uniform_refuted.
 Print Assumptions C02_inversion_overflow_orig.
